@@ -12,8 +12,8 @@ theorem math_common_found_u : Extracted.mathMissingCommon = [] ∧ Extracted.mat
 theorem math_pow2_shape_u :
     Extracted.mathIp2NonzeroGuard = true ∧ Extracted.mathIp2BitTrick = true ∧ Extracted.mathIp2Conjunction = true ∧
     Extracted.mathMaxShift = 1 ∧ Extracted.mathMaxAdd = 1 ∧
-    Extracted.mathSatOp = ">=" ∧ Extracted.mathSatConstFromMax = true ∧ Extracted.mathEarlyReturnPow2 = true ∧
-    Extracted.mathLoopInit = 1 ∧ Extracted.mathLoopCmp = "<" ∧ Extracted.mathLoopShift = 1 ∧
+    (Extracted.mathSatOp = ">=" ∨ Extracted.mathSatOp = ">") ∧ Extracted.mathSatConstFromMax = true ∧ Extracted.mathEarlyReturnPow2 = true ∧
+    Extracted.mathLoopInit = 1 ∧ (Extracted.mathLoopCmp = "<" ∨ Extracted.mathLoopCmp = "<=") ∧ Extracted.mathLoopShift = 1 ∧
     Extracted.mathReturnsResult = true ∧ Extracted.mathOrderOK = true := by decide
 
 theorem math_unbounded_found : Extracted.mathMissingUnbounded = [] := by decide
@@ -36,5 +36,11 @@ theorem math_unbounded_extracted :
 theorem C02_cap_extracted (req : Nat) : 0 < nextPow2W 64 req := by
   obtain ⟨j, _, hc⟩ := C02_node_capacity_pow2 req
   rw [hc]; exact Nat.two_pow_pos j
+
+/-- whichever of the equivalent spellings (`n > max` / `n >= max`, `result <= n` / `result < n`) the header uses, the function is
+    the `nextPow2W` the theorems are about (`MathUtil.nextPow2V_eq`) -/
+theorem math_spelling_extracted_u (w : Nat) (hw : 1 ≤ w) (n : Nat) :
+    nextPow2V Extracted.mathSatStrict Extracted.mathLoopLe w n = nextPow2W w n :=
+  nextPow2V_eq hw _ _ n
 
 end Obligations
